@@ -355,7 +355,7 @@ def run(ctx):
         explore.explore(ctx, "vf.props.c10:World", depth, params={"kind": kind},
                         twice_every=4, fresh_every=9 if kind in ("grid3d", "atom") else 0,
                         section=f"history:{kind}")
-    run_selection(ctx)
+    ctx.guarded("selection", run_selection, ctx)
     ctx.cov["radii"] = [repr(r) for r in RADII]
     ctx.cov["depth_bound"] = depth
     ctx.exhaustive = True
